@@ -247,9 +247,15 @@ func runC20(r *engine.Run) {
 			nsym, exact := spec.AirtimeExact(pl, sf, bw, pre, cr, hdr, ldro)
 			// tolerance: truncation of the symbol duration to whole ns (<1 ns per
 			// symbol, preamble 4.25+pre symbols) plus one final truncation
-			tol := new(big.Rat).SetInt64(int64(nsym+pre+5) + 1)
+			// ... which is nothing when the symbol duration is a whole number of ns (125 / 250 / 500 kHz):
+			// there the result is the formula's value to the last ns (one truncation of the preamble,
+			// which is itself whole when the symbol duration is a multiple of 4 ns)
+			tsym := new(big.Rat).SetFrac64(int64(1)<<uint(sf)*1000000, int64(bw))
+			frac := new(big.Rat).Sub(tsym, new(big.Rat).SetInt(new(big.Int).Quo(tsym.Num(), tsym.Denom())))
+			tol := new(big.Rat).Mul(frac, new(big.Rat).SetFrac64(int64(4*(nsym+pre)+17), 4))
+			tol.Add(tol, new(big.Rat).SetInt64(1))
 			diff := new(big.Rat).Sub(exact, new(big.Rat).SetInt64(int64(got)))
-			if diff.Sign() < 0 || diff.Cmp(tol) > 0 {
+			if diff.Sign() < 0 || diff.Cmp(tol) >= 0 {
 				f, _ := exact.Float64()
 				c.Fail("airtime/formula", fmt.Sprintf("pl=%d sf=%d bw=%d pre=%d cr=%d hdr=%v ldro=%v: library %d ns, Semtech formula %.3f ns", pl, sf, bw, pre, cr, hdr, ldro, int64(got), f), nil)
 			}
